@@ -2,6 +2,10 @@ module verif/harness
 
 go 1.14
 
-require github.com/alibaba/RedisShake v0.0.0
+require (
+	github.com/alibaba/RedisShake v0.0.0
+	github.com/garyburd/redigo v1.6.2
+	github.com/vinllen/redis-go-cluster v1.0.1-0.20200724054240-c957918bbc61
+)
 
 replace github.com/alibaba/RedisShake => /repo/src
